@@ -200,6 +200,12 @@ def ack_contract(prop):
     )
 
 
+TERM_FRAME = {
+    'only_own_cache_entry': 'only_key_changed(self._cache, self._job)',
+    'only_own_count': 'map_only_changed(g.assigned, old(g.assigned), self._job)',
+}
+
+
 def set_terminated_contract(prop):
     return Contract(
         'pool.ApplyResult._set_terminated', prop=prop,
@@ -208,12 +214,12 @@ def set_terminated_contract(prop):
         modifies=['self._success', 'self._value', 'self._event.flag', 'self._cache.has',
                   'self._cache.size', 'g.ncalls', 'g.assigned', 'g.cb_raised'],
         lets={'code': '-(val(signum) if signum is not None and signum != 0 else 0)'},
-        ensures={'failed_with_terminated': 'self._event.flag and not self._success and '
-                                           'self._value == einfo(Terminated(code))',
-                 'counted': 'g.assigned[self._job] == old(g.assigned[self._job]) + 1'},
-        raises={'MemoryError': {'t': 'self._event.flag and not self._success'},
-                'AnyException': {'t': 'self._event.flag and not self._success'},
-                'AnyBaseException': {'t': 'self._event.flag and not self._success'}},
+        ensures=dict(TERM_FRAME, failed_with_terminated='self._event.flag and not self._success and '
+                                                        'self._value == einfo(Terminated(code))',
+                     counted='g.assigned[self._job] == old(g.assigned[self._job]) + 1'),
+        raises={'MemoryError': dict(TERM_FRAME, t='self._event.flag and not self._success'),
+                'AnyException': dict(TERM_FRAME, t='self._event.flag and not self._success'),
+                'AnyBaseException': dict(TERM_FRAME, t='self._event.flag and not self._success')},
     )
 
 
